@@ -165,7 +165,7 @@ def run_property(prop, tier="quick", seed=0, write_baseline=False, only=None, ve
         # load-induced flips: everything still undecided is solved again with a tripled budget and half the worker
         # processes (a real solver run; its `unsat` is confirmed by the second solver like any other)
         again = list(retry)
-        v2s = solve.solve_all(again, timeout_ms=3 * solve.Z3_TIMEOUT_MS, workers=8) if again else {}
+        v2s = solve.solve_all(again, timeout_ms=3 * solve.Z3_TIMEOUT_MS, workers=8, lite=True) if again else {}
         for ob in again:
             v2 = v2s[ob.name]
             v2.time_s += verdicts[ob.name].time_s
